@@ -146,6 +146,20 @@ def run(ck, fb):
         gc = ur.calls(re.escape(INM + 'get_current_process_range') + '$')
         w = [(bb, s) for (o, f, bb, s) in ur.field_writes() if f == 'current_range']
         ck.require(len(gc) == 1 and len(w) == 1, 'R14d', 'update_process_range:stores', ur.where(), 'the recomputed range is not stored')
+        ck.rule('R14i', 'the cached owner range is kept only when it EQUALS the range computed from the current node set: in update_process_range every '
+                        'path from the entry to a return passes get_current_process_range(), and a path that leaves current_range as it is passes a '
+                        'comparison of the fresh range with it. A shortcut on anything weaker (the number of valid nodes, a dirty flag that is not set '
+                        'by every change) keeps a stale range when the valid SET changes and its size does not - {1,2,3} -> {2,3,4}: the local position '
+                        'moves, routing (recomputed per request) and ownership (cached) disagree')
+        if gc:
+            ck.require(cfg.must_pass_before_return(ur, 0, {s0.bb for s0 in gc}), 'R14i', 'update_process_range:always-recomputes', ur.where(),
+                       'update_process_range can return without computing the range from the current node set: the cached range survives a change of '
+                       'the valid set that the shortcut does not notice (same count, other members), and route_addr - which recomputes - sends writes '
+                       'to a node that does not consider itself the owner', 'no return before get_current_process_range()')
+            cmpb = {s0.bb for s0 in ur.calls(r'::(eq|ne)$') if any(Taint(ur, local_src=[g0.dst] if isinstance(g0.dst, int) else []).op_tainted(a) for g0 in gc for a in s0.args)}
+            ck.require(bool(cmpb) and cfg.must_pass_before_return(ur, 0, {bb for (bb, s) in w} | cmpb), 'R14i', 'update_process_range:kept-only-if-equal', ur.where(),
+                       'update_process_range can leave current_range unchanged without having compared it with the freshly computed range',
+                       'unchanged only behind fresh == current')
     ck.rule('R14f', 'one range, two holders: the naming actor keeps its own copy of the owner range (NamingActor.current_range, used for '
                     'at_process_range and to take over instances). Every InnerNodeManage method that recomputes the range '
                     '(update_process_range) can reach refresh_process_range (NamingCmd::ClusterRefreshProcessRange) afterwards, and '
